@@ -12,6 +12,16 @@ pub struct Proj {
     pub text: String,
     pub target_static: bool,
     pub gate: String,
+    pub idx: String,      // Lean text of the IndexBound (".na" for non-index entries)
+    pub idx_key: String,  // na | concrete | upstream | delegates:<recv> | unconstrained
+    pub idx_ty: String,   // the index type as written
+    pub idx_facts: String, // what the where-clauses assume (for the reader)
+}
+pub struct RawSite {
+    pub name: String,
+    pub is_unsafe: bool,
+    pub via_write: bool,
+    pub barrier: bool,
 }
 pub struct Ctor {
     pub name: String,
@@ -44,6 +54,8 @@ pub struct Table {
     pub unlocks: Vec<UnlockImpl>,
     pub cells: Vec<CellImpl>,
     pub lock_fns: Vec<LockFn>,
+    pub raw_sites: Vec<RawSite>,
+    pub marker_traits_unsafe: bool,
     pub field_macro: String, // Lean text
     pub write_non_exhaustive: bool,
     pub unclassified: Vec<String>,
@@ -98,6 +110,109 @@ fn target_static(g: &Generics, t: &Type) -> bool {
     used.iter().all(|p| st.contains(p))
 }
 
+/// All `Type: Trait<…>` bounds of an impl header: inline parameter bounds and where-predicates.
+fn trait_bounds(g: &Generics) -> Vec<(Type, Path)> {
+    let mut v = vec![];
+    for p in &g.params {
+        if let GenericParam::Type(t) = p {
+            let id = &t.ident;
+            let ty: Type = syn::parse_quote!(#id);
+            for b in &t.bounds {
+                if let TypeParamBound::Trait(tb) = b {
+                    if !matches!(tb.modifier, TraitBoundModifier::Maybe(_)) {
+                        v.push((ty.clone(), tb.path.clone()));
+                    }
+                }
+            }
+        }
+    }
+    if let Some(w) = &g.where_clause {
+        for pr in &w.predicates {
+            if let WherePredicate::Type(pt) = pr {
+                for b in &pt.bounds {
+                    if let TypeParamBound::Trait(tb) = b {
+                        if !matches!(tb.modifier, TraitBoundModifier::Maybe(_)) {
+                            v.push((pt.bounded_ty.clone(), tb.path.clone()));
+                        }
+                    }
+                }
+            }
+        }
+    }
+    v
+}
+
+/// Classify how `unsafe impl<…> IndexWrite<Idx> for R where …` constrains `Idx`
+/// (see `IndexBound` in Model/WriteCap.lean). Decided from the where-clauses as written.
+/// Returns (Lean text, key, index type text, facts text).
+fn classify_index(c: &Crate, module: &[String], i: &ItemImpl) -> (String, String, String, String) {
+    let unk = |why: &str| (".unconstrained".to_string(), "unconstrained".to_string(), String::new(), why.to_string());
+    let Some((_, tp, _)) = &i.trait_ else { return unk("no trait") };
+    let targs = last_type_args(tp);
+    let Some(idx) = targs.first() else { return unk("IndexWrite without an index type argument") };
+    let idx_text = pretty(&toks(*idx));
+    let tparams = type_params(&i.generics);
+    let self_text = toks(&*i.self_ty);
+    let mentions: Vec<&String> = tparams.iter().filter(|p| mentions_ident(*idx, p)).collect();
+    // bare parameter `I`?
+    let bare: Option<String> = match idx {
+        Type::Path(p) if p.qself.is_none() => p.path.get_ident().map(|x| x.to_string()).filter(|x| tparams.contains(x)),
+        _ => None,
+    };
+    let mut assumes_self = vec![];
+    let mut assumes_index = vec![];
+    let mut pins: Vec<(String, String)> = vec![];
+    for (bty, tr) in trait_bounds(&i.generics) {
+        let bt = toks(&bty);
+        let tname = last_seg(&tr);
+        let full = c.resolve(module, &path_segs(&tr), tr.leading_colon.is_some()).join("::");
+        if tname == "Sized" {
+            continue;
+        }
+        if bt == "Self" || bt == self_text {
+            assumes_self.push(pretty(&format!("{bt}: {}", toks(&tr))));
+        } else if tname == "IndexWrite" {
+            let arg = last_type_args(&tr).first().map(|t| toks(*t)).unwrap_or_default();
+            if bare.as_deref() == Some(arg.as_str()) {
+                pins.push(classify_recv(c, module, &bty));
+            } else {
+                assumes_index.push(pretty(&format!("{bt}: {}", toks(&tr))));
+            }
+        } else if tname == "Index" || tname == "IndexMut" || full.starts_with("crate::") || full.starts_with('?') {
+            // an `Index` assumption on another type, or a crate-defined / unresolved trait that may
+            // have `Index` as a supertrait
+            assumes_index.push(pretty(&format!("{bt}: {}", toks(&tr))));
+        }
+    }
+    let facts = format!(
+        "index type `{idx_text}`{}; assumes on Self: [{}]; other Index assumptions: [{}]; pinned by IndexWrite of: [{}]",
+        if mentions.is_empty() { " (no impl parameter)".to_string() } else { format!(" (mentions {})", mentions.iter().map(|s| s.as_str()).collect::<Vec<_>>().join(", ")) },
+        assumes_self.join("; "),
+        assumes_index.join("; "),
+        pins.iter().map(|p| p.1.clone()).collect::<Vec<_>>().join(", ")
+    );
+    let nothing_assumed = assumes_self.is_empty() && assumes_index.is_empty();
+    let (lean, key) = if mentions.is_empty() {
+        if nothing_assumed && pins.is_empty() {
+            (".concrete".to_string(), "concrete".to_string())
+        } else {
+            (".unconstrained".to_string(), "unconstrained".to_string())
+        }
+    } else if pins.len() == 1 && assumes_index.is_empty() && bare.is_some() {
+        (format!("(.delegates {})", pins[0].0), format!("delegates:{}", pins[0].1))
+    } else if pins.is_empty() && nothing_assumed {
+        (".upstream".to_string(), "upstream".to_string())
+    } else {
+        (".unconstrained".to_string(), "unconstrained".to_string())
+    };
+    (lean, key, idx_text, facts)
+}
+
+/// Token text of a block with all whitespace and trailing commas removed.
+fn canon_body(b: &Block) -> String {
+    toks(b).replace(' ', "").replace(",}", "}")
+}
+
 fn ret_type_text(sig: &Signature) -> String {
     match &sig.output {
         ReturnType::Default => String::new(),
@@ -143,8 +258,10 @@ fn has_bound(g: &Generics, extra: Option<&Generics>, param: &str, bound_last_seg
 const CELL_READERS: &[&str] = &["get", "borrow", "try_borrow", "into_inner", "get_mut", "as_ptr", "clone", "fmt", "eq", "cmp", "partial_cmp"];
 
 struct BodyScan {
-    touches: bool,
+    touches: bool,   // mutates the cell or hands out a reference to it
+    mutates: bool,   // calls a non-reading method on the cell
     barrier: bool,
+    raw_calls: Vec<String>, // method / path calls by name (for the raw-unlock-site scan)
 }
 impl<'ast> Visit<'ast> for BodyScan {
     fn visit_expr_method_call(&mut self, m: &'ast ExprMethodCall) {
@@ -153,6 +270,7 @@ impl<'ast> Visit<'ast> for BodyScan {
             if let Member::Named(id) = &f.member {
                 if id == "cell" && !CELL_READERS.contains(&name.as_str()) {
                     self.touches = true;
+                    self.mutates = true;
                 }
             }
         }
@@ -162,6 +280,7 @@ impl<'ast> Visit<'ast> for BodyScan {
         if name == "unlock" && m.args.len() == 1 {
             self.barrier = true; // Gc::unlock(self, mc) = Gc::write(mc, self).unlock()
         }
+        self.raw_calls.push(name);
         visit::visit_expr_method_call(self, m);
     }
     fn visit_expr_call(&mut self, c: &'ast ExprCall) {
@@ -169,6 +288,9 @@ impl<'ast> Visit<'ast> for BodyScan {
             let segs = path_segs(&p.path);
             if segs.len() >= 2 && segs[segs.len() - 2] == "Gc" && segs[segs.len() - 1] == "write" {
                 self.barrier = true;
+            }
+            if let Some(l) = segs.last() {
+                self.raw_calls.push(l.clone());
             }
         }
         visit::visit_expr_call(self, c);
@@ -286,6 +408,8 @@ pub fn extract(c: &Crate, items: &Items, raw: &Raw) -> Table {
         unlocks: vec![],
         cells: vec![],
         lock_fns: vec![],
+        raw_sites: vec![],
+        marker_traits_unsafe: false,
         field_macro: field_macro_shape(raw),
         write_non_exhaustive: false,
         unclassified: vec![],
@@ -328,6 +452,20 @@ pub fn extract(c: &Crate, items: &Items, raw: &Raw) -> Table {
                 if i.unsafety.is_none() {
                     t.unclassified.push(format!("safe impl of {trait_name} for {self_text}"));
                 }
+                let (idx, idx_key, idx_ty, idx_facts) = if trait_name == "IndexWrite" {
+                    classify_index(c, module, i)
+                } else {
+                    // DerefWrite: `Deref` has no type parameter, so no downstream crate can add a
+                    // `Deref` impl to a foreign receiver; but a where-clause bounding the receiver
+                    // itself would mean the `Deref` impl is assumed, not known: fail closed
+                    for (bty, tr) in trait_bounds(&i.generics) {
+                        let bt = toks(&bty);
+                        if (bt == "Self" || bt == self_text) && last_seg(&tr) != "Sized" {
+                            t.unclassified.push(format!("DerefWrite for {self_text} assumes `{}` on the receiver", pretty(&format!("{bt}: {}", toks(&tr)))));
+                        }
+                    }
+                    (".na".to_string(), "na".to_string(), String::new(), String::new())
+                };
                 t.projs.push(Proj {
                     kind: if trait_name == "DerefWrite" { "deref" } else { "index" },
                     recv,
@@ -335,6 +473,10 @@ pub fn extract(c: &Crate, items: &Items, raw: &Raw) -> Table {
                     text: hdr,
                     target_static: target_static(&i.generics, &i.self_ty),
                     gate: raw.gate_for(&modname, &trait_name, &self_text),
+                    idx,
+                    idx_key,
+                    idx_ty,
+                    idx_facts,
                 });
             }
             "Unlock" => {
@@ -349,7 +491,14 @@ pub fn extract(c: &Crate, items: &Items, raw: &Raw) -> Table {
                                 if let Stmt::Expr(Expr::Reference(r), None) = &f.block.stmts[0] {
                                     if r.mutability.is_none() {
                                         if let Expr::Field(fe) = &*r.expr {
-                                            if toks(&*fe.base) == "self" {
+                                            // `self` must itself be the struct owning that field
+                                            // (not a pointer type reaching it through `Deref`)
+                                            let head = type_path(&i.self_ty).map(last_seg).unwrap_or_default();
+                                            let field = toks(&fe.member);
+                                            let owns = items.structs.iter().any(|(_, st)| {
+                                                st.ident == head && st.fields.iter().any(|f| f.ident.as_ref().map(|x| x.to_string()) == Some(field.clone()))
+                                            });
+                                            if toks(&*fe.base) == "self" && owns {
                                                 in_place = true;
                                             }
                                         }
@@ -395,6 +544,16 @@ pub fn extract(c: &Crate, items: &Items, raw: &Raw) -> Table {
                     if !has_bound(&i.generics, None, "T", "IndexWrite") {
                         t.unclassified.push(format!("Index for {self_text} without an IndexWrite bound"));
                     }
+                    for it in &i.items {
+                        if let ImplItem::Fn(f) = it {
+                            if f.sig.ident == "index" && canon_body(&f.block) != "{unsafe{Write::assume(&self.__inner[index])}}" {
+                                t.unclassified.push(format!("<Write<T> as Index>::index has an unexpected body: {}", toks(&f.block)));
+                            }
+                        }
+                    }
+                } else {
+                    // an `Index` impl written in the crate itself: its body is not analysed
+                    t.unclassified.push(format!("crate-local `impl Index for {}` (body not analysed)", pretty(&self_text)));
                 }
             }
             _ => {}
@@ -464,6 +623,23 @@ pub fn extract(c: &Crate, items: &Items, raw: &Raw) -> Table {
                 }
                 t.ctors.push(Ctor { name: qual, kind, is_unsafe, static_bound, barrier });
             } else if on_write {
+                let body = canon_body(&f.block);
+                let expect: Option<&[&str]> = match name.as_str() {
+                    "unlock" => Some(&["{unsafe{self.__inner.unlock_unchecked()}}"]),
+                    "as_deref" => Some(&["{unsafe{Write::assume(&*self)}}"]),
+                    "as_write" => Some(&[
+                        "{unsafe{match&self.__inner{None=>None,Some(v)=>Some(Write::assume(v))}}}",
+                        "{unsafe{match&self.__inner{Ok(v)=>Ok(Write::assume(v)),Err(e)=>Err(Write::assume(e))}}}",
+                    ]),
+                    "deref" => Some(&["{&self.__inner}"]),
+                    "deref_mut" => Some(&["{&mutself.__inner}"]),
+                    _ => None,
+                };
+                if let Some(ex) = expect {
+                    if !ex.contains(&body.as_str()) {
+                        t.unclassified.push(format!("Write::{name} has an unexpected body: {}", toks(&f.block)));
+                    }
+                }
                 match name.as_str() {
                     "unlock" => {}
                     "as_deref" => {
@@ -483,6 +659,10 @@ pub fn extract(c: &Crate, items: &Items, raw: &Raw) -> Table {
                                 text: pretty(&format!("Write<{}>::as_write", toks(*inner))),
                                 target_static: false,
                                 gate: raw.gate_for(&modname, "", &self_text),
+                                idx: ".na".into(),
+                                idx_key: "na".into(),
+                                idx_ty: String::new(),
+                                idx_facts: String::new(),
                             });
                         } else {
                             t.unclassified.push("Write::as_write on an unknown receiver".into());
@@ -526,8 +706,9 @@ pub fn extract(c: &Crate, items: &Items, raw: &Raw) -> Table {
     lock_types.sort();
     lock_types.dedup();
     for (_module, i) in &items.impls {
-        if i.trait_.is_some() {
-            continue;
+        let tr_name = i.trait_.as_ref().map(|t| last_seg(&t.1));
+        if tr_name.as_deref() == Some("Unlock") {
+            continue; // judged as an UnlockImpl
         }
         let Some(p) = type_path(&i.self_ty) else { continue };
         let head = last_seg(p);
@@ -544,24 +725,77 @@ pub fn extract(c: &Crate, items: &Items, raw: &Raw) -> Table {
         };
         for it in &i.items {
             let ImplItem::Fn(f) = it else { continue };
-            if !matches!(f.vis, Visibility::Public(_)) {
+            if tr_name.is_none() && !matches!(f.vis, Visibility::Public(_)) {
                 continue;
             }
-            let mut scan = BodyScan { touches: false, barrier: false };
+            let mut scan = BodyScan { touches: false, mutates: false, barrier: false, raw_calls: vec![] };
             scan.visit_block(&f.block);
             let name = f.sig.ident.to_string();
             let default_take = name == "take"
                 && (has_bound(&i.generics, Some(&f.sig.generics), "T", "Default"));
+            let ty_txt = if on_gc { format!("Gc<{lock_ty}>") } else { lock_ty.clone() };
             t.lock_fns.push(LockFn {
-                name: format!("{}{}::{}", if on_gc { "Gc<" } else { "" }, if on_gc { format!("{lock_ty}>") } else { lock_ty.clone() }, name),
+                name: match &tr_name {
+                    Some(tn) => format!("<{ty_txt} as {tn}>::{name}"),
+                    None => format!("{ty_txt}::{name}"),
+                },
                 recv: recv_kind(&f.sig, on_gc),
                 is_unsafe: f.sig.unsafety.is_some(),
-                touches_cell: scan.touches,
+                // trait impls (Debug, Clone, …) may *read* through `&self.cell`; only a mutating call counts
+                touches_cell: if tr_name.is_some() { scan.mutates } else { scan.touches },
                 barrier: scan.barrier,
                 default_take,
             });
         }
     }
+    // raw unlock sites: every function of the crate calling `unlock_unchecked` or an unsafe raw
+    // accessor of a lock type
+    let mut raw_names: Vec<String> = vec!["unlock_unchecked".to_string()];
+    for f in &t.lock_fns {
+        if f.is_unsafe && f.touches_cell {
+            if let Some(n) = f.name.rsplit("::").next() {
+                raw_names.push(n.to_string());
+            }
+        }
+    }
+    let site = |t: &mut Table, name: String, sig: &Signature, block: &Block, via_write: bool| {
+        let mut scan = BodyScan { touches: false, mutates: false, barrier: false, raw_calls: vec![] };
+        scan.visit_block(block);
+        if scan.raw_calls.iter().any(|c| raw_names.contains(c)) {
+            t.raw_sites.push(RawSite { name, is_unsafe: sig.unsafety.is_some(), via_write, barrier: scan.barrier });
+        }
+    };
+    for (module, i) in &items.impls {
+        let head = type_path(&i.self_ty).map(last_seg).unwrap_or_else(|| pretty(&toks(&*i.self_ty)));
+        let trn = i.trait_.as_ref().map(|t| last_seg(&t.1));
+        let in_barrier = module.last().map(|m| m == "barrier").unwrap_or(false);
+        for it in &i.items {
+            if let ImplItem::Fn(f) = it {
+                let name = match &trn {
+                    Some(tn) => format!("<{head} as {tn}>::{}", f.sig.ident),
+                    None => format!("{head}::{}", f.sig.ident),
+                };
+                let via_write = head == "Write" && in_barrier && trn.is_none() && f.sig.ident == "unlock"
+                    && matches!(f.sig.inputs.first(), Some(FnArg::Receiver(r)) if r.reference.is_some() && r.mutability.is_none());
+                site(&mut t, name, &f.sig, &f.block, via_write);
+            }
+        }
+    }
+    for (_, f) in &items.fns {
+        site(&mut t, format!("fn {}", f.sig.ident), &f.sig, &f.block, false);
+    }
+    // the marker traits must be `unsafe trait`s (else a downstream crate implements them freely)
+    let mut dw_unsafe = false;
+    let mut iw_unsafe = false;
+    for (_, tr) in &items.traits {
+        if tr.ident == "DerefWrite" {
+            dw_unsafe = tr.unsafety.is_some();
+        }
+        if tr.ident == "IndexWrite" {
+            iw_unsafe = tr.unsafety.is_some();
+        }
+    }
+    t.marker_traits_unsafe = dw_unsafe && iw_unsafe;
     // exported macros mentioning Write other than field!/unlock!
     for (_m, name, exported, body) in raw.all_macro_rules() {
         if !exported {
@@ -636,11 +870,13 @@ impl Table {
             .iter()
             .map(|p| {
                 format!(
-                    "    {{ kind := .{}, recv := {}, text := {}, targetStatic := {}, gate := {} }}",
+                    "    {}{{ kind := .{}, recv := {}, text := {}, targetStatic := {}, idx := {}, gate := {} }}",
+                    if p.idx_facts.is_empty() { String::new() } else { format!("-- {}\n    ", p.idx_facts.replace('\n', " ")) },
                     p.kind,
                     p.recv,
                     lean_str(&p.text),
                     lean_bool(p.target_static),
+                    p.idx,
                     lean_str(&p.gate)
                 )
             })
@@ -684,10 +920,26 @@ impl Table {
             })
             .collect();
         s.push_str(&v.join(",\n"));
+        s.push_str("\n  ],\n  rawSites := [\n");
+        let v: Vec<String> = self
+            .raw_sites
+            .iter()
+            .map(|r| {
+                format!(
+                    "    {{ name := {}, isUnsafe := {}, viaWrite := {}, barrier := {} }}",
+                    lean_str(&r.name),
+                    lean_bool(r.is_unsafe),
+                    lean_bool(r.via_write),
+                    lean_bool(r.barrier)
+                )
+            })
+            .collect();
+        s.push_str(&v.join(",\n"));
         s.push_str(&format!(
-            "\n  ],\n  fieldMacro := {},\n  writeNonExhaustive := {},\n  unclassified := {}\n}}\n\nend GcArena.Generated\n",
+            "\n  ],\n  fieldMacro := {},\n  writeNonExhaustive := {},\n  markerTraitsUnsafe := {},\n  unclassified := {}\n}}\n\nend GcArena.Generated\n",
             self.field_macro,
             lean_bool(self.write_non_exhaustive),
+            lean_bool(self.marker_traits_unsafe),
             lean_list(&self.unclassified.iter().map(|x| lean_str(x)).collect::<Vec<_>>())
         ));
         s
@@ -720,12 +972,15 @@ impl Table {
                 .iter()
                 .map(|p| {
                     format!(
-                        "{{\"kind\":{},\"recv\":{},\"text\":{},\"target_static\":{},\"gate\":{}}}",
+                        "{{\"kind\":{},\"recv\":{},\"text\":{},\"target_static\":{},\"gate\":{},\"idx\":{},\"idx_ty\":{},\"idx_facts\":{}}}",
                         json_str(p.kind),
                         json_str(&p.recv_key),
                         json_str(&p.text),
                         p.target_static,
-                        json_str(&p.gate)
+                        json_str(&p.gate),
+                        json_str(&p.idx_key),
+                        json_str(&p.idx_ty),
+                        json_str(&p.idx_facts)
                     )
                 })
                 .collect::<Vec<_>>()
@@ -775,10 +1030,28 @@ impl Table {
                 .collect::<Vec<_>>()
                 .join(","),
         );
+        s.push_str("],\"raw_sites\":[");
+        s.push_str(
+            &self
+                .raw_sites
+                .iter()
+                .map(|r| {
+                    format!(
+                        "{{\"name\":{},\"is_unsafe\":{},\"via_write\":{},\"barrier\":{}}}",
+                        json_str(&r.name),
+                        r.is_unsafe,
+                        r.via_write,
+                        r.barrier
+                    )
+                })
+                .collect::<Vec<_>>()
+                .join(","),
+        );
         s.push_str(&format!(
-            "],\"field_macro\":{},\"write_non_exhaustive\":{},\"unclassified\":[{}]}}",
+            "],\"field_macro\":{},\"write_non_exhaustive\":{},\"marker_traits_unsafe\":{},\"unclassified\":[{}]}}",
             json_str(&self.field_macro),
             self.write_non_exhaustive,
+            self.marker_traits_unsafe,
             self.unclassified.iter().map(|x| json_str(x)).collect::<Vec<_>>().join(",")
         ));
         s
